@@ -43,7 +43,11 @@ fn strategy(tier: Tier) -> BoxedStrategy<SummaryCase> {
         if !spouse { let mut r = mk(2019, 4, 1, Act::Buy, 7, &pr); r.af = "Spouse".into(); rows.insert(2, r); }
         LedgerCase { rows, opening: vec![], tags: vec!["year-netting-to-zero".into()] }
     });
-    (prop_oneof![4 => ledger, 4 => scen, 1 => cancel.boxed()], any::<u16>(), 0usize..12, any::<bool>()).prop_map(|(ledger, ix, off, annual)| {
+    // scenarios some of whose sales carry a declared superficial loss (also forced ones, and the forced 0 = "not superficial")
+    let mut dp = super::c02::scen_params();
+    dp.max_events = 6;
+    let declared = super::c02::declared_strategy_for(dp);
+    (prop_oneof![4 => ledger, 4 => scen, 1 => cancel.boxed(), 2 => declared], any::<u16>(), 0usize..12, any::<bool>()).prop_map(|(ledger, ix, off, annual)| {
         let mut dates: Vec<Date> = ledger.rows.iter().map(|r| r.sd).collect(); dates.sort(); dates.dedup();
         let base = if dates.is_empty() { crate::gen::ymd(2020, 1, 1) } else { dates[(ix as usize * dates.len()) >> 16] };
         let cut = base + Duration::days([0i64, -1, 1, 29, 30, 31, -29, -30, -31, 5, 400, -400][off]);
@@ -161,6 +165,7 @@ fn check(c: &SummaryCase, obs: &mut Obs) -> Verdict {
         if f_all.iter().all(|r| r.sd > c.cut) { obs.class("cut-before-first-row"); }
     }
     obs.class(if c.annual { "annual" } else { "simple" });
+    if l.rows.iter().any(|r| !r.sfl.is_empty()) { obs.class("declared-superficial-loss-in-history"); if l.rows.iter().any(|r| r.sfl.ends_with('!')) { obs.class("forced-declared-superficial-loss-in-history"); } }
     if summ.warnings.iter().any(|w| w.contains("could not be due to superficial-loss conflicts")) { obs.class("unsummarizable-rows-kept"); }
     Verdict::Pass
 }
